@@ -260,6 +260,7 @@ type H1Client struct {
 	cur      *ReqRec
 	ParseErr error
 	SawClose bool
+	left     bool
 	ClosedAt time.Duration
 	// Connect is called to (re)connect; returns nil if refused.
 	Connect func() *sim.Conn
@@ -275,6 +276,7 @@ func NewH1Client(s *sim.Sim, h *History, name string) *H1Client {
 // Enqueue adds a request; it is sent when it is its turn (after the previous reply).
 func (x *H1Client) Enqueue(r *ReqRec) {
 	r.Queued = true
+	r.Client = x.Name
 	x.queue = append(x.queue, r)
 	x.pump()
 }
@@ -287,6 +289,10 @@ func (x *H1Client) dropQueue() {
 }
 
 func (x *H1Client) pump() {
+	if x.left {
+		x.dropQueue()
+		return
+	}
 	if x.cur != nil || len(x.queue) == 0 {
 		return
 	}
@@ -338,6 +344,9 @@ func (x *H1Client) drain(eof bool) {
 		}
 		tok, _ := m.Get("X-Rtok")
 		x.S.Logf("h1client %s got reply status=%d %dB", x.Name, m.Status, len(m.Raw))
+		if x.cur == nil && x.left {
+			continue // we half-closed and stopped waiting: MOSN may still answer the request that was in flight
+		}
 		if x.cur == nil {
 			x.Stray++
 			x.H.Stray = append(x.H.Stray, fmt.Sprintf("client %s received a response (status %d, tok %q) with no request outstanding", x.Name, m.Status, tok))
@@ -361,8 +370,11 @@ func (x *H1Client) OnClose(c *sim.Conn) {
 	x.ClosedAt = x.S.Now()
 	x.drain(true)
 	if x.cur != nil && x.cur.ConnClosedAt == 0 {
+		// closed with a request outstanding: this client gives up (no reconnect, the
+		// rest of its queue is dropped) so that the run can come to its idle point
 		x.cur.ConnClosedAt = x.ClosedAt
 		x.cur = nil
+		x.left = true
 	}
 	x.S.Logf("h1client %s saw close", x.Name)
 	x.pump()
@@ -375,6 +387,8 @@ func (x *H1Client) Leave(reset bool) {
 	if x.cur != nil && x.cur.ClientLeftAt == 0 {
 		x.cur.ClientLeftAt = x.S.Now()
 	}
+	x.cur = nil
+	x.left = true
 	x.dropQueue()
 	if reset {
 		x.Conn.PeerReset()
